@@ -7,13 +7,39 @@ use std::pin::Pin;
 use std::sync::Arc;
 use std::task::{Context, Poll, Wake, Waker};
 
-struct Noop;
-impl Wake for Noop {
-    fn wake(self: Arc<Self>) {}
+/// The executors below poll in a loop whether or not the future asked for it, so every schedule can be
+/// forced; the waker only counts. A future that returns Pending without having called the waker would
+/// never be polled again by an executor that polls on wake-up (tokio, async-std, …): that is recorded
+/// as a lost wake-up and judged by C12.
+#[derive(Default)]
+struct CountingWaker(std::sync::atomic::AtomicU64);
+impl Wake for CountingWaker {
+    fn wake(self: Arc<Self>) {
+        self.0.fetch_add(1, std::sync::atomic::Ordering::SeqCst);
+    }
+    fn wake_by_ref(self: &Arc<Self>) {
+        self.0.fetch_add(1, std::sync::atomic::Ordering::SeqCst);
+    }
 }
 
-pub fn noop_waker() -> Waker {
-    Waker::from(Arc::new(Noop))
+struct Wakes(Arc<CountingWaker>);
+impl Wakes {
+    fn new() -> (Wakes, Waker) {
+        let c = Arc::new(CountingWaker::default());
+        (Wakes(c.clone()), Waker::from(c))
+    }
+    fn count(&self) -> u64 {
+        self.0 .0.load(std::sync::atomic::Ordering::SeqCst)
+    }
+}
+
+thread_local! {
+    static LOST_WAKEUPS: Cell<u64> = const { Cell::new(0) };
+}
+
+/// number of polls (on this thread, since the last call) that returned Pending although the waker had not been called
+pub fn take_lost_wakeups() -> u64 {
+    LOST_WAKEUPS.with(|c| c.replace(0))
 }
 
 thread_local! {
@@ -23,14 +49,18 @@ thread_local! {
 
 /// Drive one future to completion on this thread. Returns (output, number of polls).
 pub fn block_on_count<F: Future>(f: F) -> (F::Output, u64) {
-    let waker = noop_waker();
+    let (wakes, waker) = Wakes::new();
     let mut cx = Context::from_waker(&waker);
     let mut f = Box::pin(f);
     let mut polls = 0;
     loop {
         polls += 1;
+        let before = wakes.count();
         if let Poll::Ready(v) = f.as_mut().poll(&mut cx) {
             return (v, polls);
+        }
+        if wakes.count() == before {
+            LOST_WAKEUPS.with(|c| c.set(c.get() + 1));
         }
         assert!(polls < 10_000_000, "future never completes");
     }
@@ -65,7 +95,7 @@ pub type BoxFut<'a, T> = Pin<Box<dyn Future<Output = T> + 'a>>;
 /// round-robin to completion. Returns each future's output (None = dropped) and the realised
 /// schedule (indices actually polled).
 pub fn run_schedule<'a, T>(futs: Vec<BoxFut<'a, T>>, ids: &[u64], schedule: &[usize], drop_after: &[Option<usize>]) -> (Vec<Option<T>>, Vec<usize>) {
-    let waker = noop_waker();
+    let (wakes, waker) = Wakes::new();
     let mut cx = Context::from_waker(&waker);
     let n = futs.len();
     let mut slots: Vec<Option<BoxFut<'a, T>>> = futs.into_iter().map(Some).collect();
@@ -77,12 +107,16 @@ pub fn run_schedule<'a, T>(futs: Vec<BoxFut<'a, T>>, ids: &[u64], schedule: &[us
             CURRENT_EVAL.with(|c| c.set(ids[i]));
             realised.push(i);
             polls[i] += 1;
+            let before = wakes.count();
             match f.as_mut().poll(&mut cx) {
                 Poll::Ready(v) => {
                     out[i] = Some(v);
                     slots[i] = None;
                 }
                 Poll::Pending => {
+                    if wakes.count() == before {
+                        LOST_WAKEUPS.with(|c| c.set(c.get() + 1));
+                    }
                     if let Some(k) = drop_after.get(i).copied().flatten() {
                         if polls[i] >= k {
                             slots[i] = None; // cancellation: the future is dropped mid-evaluation
